@@ -22,7 +22,7 @@ def check(model, R, tier):
     R.rule('C13.DROP-TRAIN', 'training: one draw of shape x.shape from the global generator; keep iff draw > p (zero with probability p); survivors scaled by 1/(1-p) under p < 1; result = x * mask through the mul op, mask not requiring grad', floor=5)
     R.rule('C13.BN-CHOICE', 'over all 8 valuations of (training, track_running_stats, buffers present): running statistics are used iff not training and buffers present; they are updated iff training and tracking (layer + functional + kernel composed by partial evaluation; output term compared)', floor=2)
     R.rule('C13.BN-ONCE', 'num_batches_tracked += 1 exactly once per forward on exactly the path training and track_running_stats; averaging factor = momentum, or 1/num_batches_tracked (after the increment) when momentum is None', floor=2)
-    R.rule('C13.BN-UPDATE', 'running stats are written only under `training`, as stat*f + running*(1-f) with the unbiased variance var*n/(n-1), into fresh arrays; the wrapper writes both back once from the kernel results', floor=2)
+    R.rule('C13.BN-UPDATE', 'running stats are written only under `training`, as stat*f + running*(1-f) with the unbiased variance var*n/(n-1), into fresh arrays; the write-back is decided on the composed layer + wrapper + kernel evaluation', floor=1)
     R.rule('C13.MODE-SOURCE', 'Dropout and BatchNorm read only self.training for the mode', floor=2)
     check_dropout(model, R)
     check_bn(model, R)
@@ -118,23 +118,4 @@ def check_bn(model, R):
     from sa.rules_bn import check_layer
     check_layer(model, R)
     R.ob('C13.BN-ONCE', f.qualname, 'F.batch_norm called once', not cfg.in_loop(_stmt_of(f, call[0])), 'one normalisation (and at most one update) per forward', f.loc)
-    kcfg = CFG(kern.node)
-    # wrapper write-back: both, once, from the kernel results
-    wcfg = CFG(wrapper.node)
-    kc = [n for n in body_walk(wrapper.node) if isinstance(n, ast.Assign) and isinstance(n.value, ast.Call) and model.resolve(wrapper.mod, n.value.func) == kern.qualname]
-    ok = len(kc) == 1 and isinstance(kc[0].targets[0], ast.Tuple)
-    if ok:
-        names = [norm(e) for e in kc[0].targets[0].elts]
-        rets = [n for n in body_walk(kern.node) if isinstance(n, ast.Return)]
-        rnames = [norm(e) for e in rets[0].value.elts] if rets and isinstance(rets[0].value, ast.Tuple) else []
-        wb = [n for n in body_walk(wrapper.node) if isinstance(n, ast.Assign) and isinstance(n.targets[0], ast.Attribute) and n.targets[0].attr == 'data']
-        okw = len(wb) == 2
-        for n in wb:
-            tgt = norm(n.targets[0].value)
-            src = norm(n.value)
-            idx = names.index(src) if src in names else -1
-            okw = okw and idx >= 0 and idx < len(rnames) and rnames[idx] == tgt and not wcfg.in_loop(n)
-            fs = {(t, p) for t, p, _ in facts_at(wcfg, n)}
-            okw = okw and (('%s is not None' % src, True) in fs)
-        ok = okw
-    R.ob('C13.BN-UPDATE', wrapper.qualname, 'write-back of running_mean / running_var from the kernel results', ok, 'each running buffer must be assigned once from the kernel\'s result for THAT buffer', wrapper.loc)
+    # (the write-back of each buffer from the kernel result for THAT buffer is decided by check_layer: layer + wrapper + kernel composed, stores compared as terms)
